@@ -158,6 +158,29 @@ def file_bytes(rng, kind):
     return data.encode()
 
 
+_PRE = {}
+
+
+def shared_pre():
+    """The preprocessor script, written ONCE per check run and before any other thread exists: a script that is written
+    while another thread forks can be held open for writing by that child for a moment, and executing it then fails with
+    ETXTBSY ("Text file busy") - a flaw of the driver, not of rg."""
+    if "path" not in _PRE:
+        d = tempfile.mkdtemp(prefix="verif-c08-pre-")
+        p = os.path.join(d, "pre.sh")
+        with open(p, "wb") as f:
+            f.write(PRE_SCRIPT)
+        os.chmod(p, 0o755)
+        _PRE["dir"], _PRE["path"] = d, p
+    return _PRE["path"]
+
+
+def drop_shared_pre():
+    if "dir" in _PRE:
+        shutil.rmtree(_PRE.pop("dir"), ignore_errors=True)
+        _PRE.pop("path", None)
+
+
 def materialise(scn, base):
     """Render the scenario's tree under base/tree (deterministic in scn['seed'])."""
     rng = random.Random(scn["seed"])
@@ -202,10 +225,7 @@ def materialise(scn, base):
         with open(os.path.join(root, ".ignore"), "a") as f:
             f.write("lnk0/\n")
         files = files + extra
-    pre = os.path.join(base, "pre.sh")
-    with open(pre, "wb") as f:
-        f.write(PRE_SCRIPT)
-    os.chmod(pre, 0o755)
+    pre = shared_pre()
     if scn.get("roots"):
         # extra top-level directories: the group names every top-level directory on the command line
         extra = []
@@ -613,6 +633,7 @@ def main(tier):
                        "lines are interned to integers injectively before TLC sees them (equal sequences <=> equal bytes)",
                        "design bounds: specs/cli/C08_*.cfg"]
     rg = vlib.build_rg()
+    shared_pre()
     dres = {}
     dthread = threading.Thread(target=design, args=(chk, tier, dres))
     dthread.start()
@@ -677,6 +698,7 @@ def main(tier):
         "mutants_refuted": dres.get("mutants_refuted", 0), "synthetic_cross_validation": dres.get("synthetic"),
     })
     chk.exhaustive = False
+    drop_shared_pre()
     return chk.finish()
 
 
